@@ -169,6 +169,27 @@ func init() {
 		b, _ := strBytes(args[1])
 		return indexVal(a, b)
 	}
+	idxBytes := func(fr *frame, args []value) value { return indexVal(args[0].([]value), args[1].([]value)) }
+	idxStr := func(fr *frame, args []value) value {
+		a, _ := strBytes(args[0])
+		b, _ := strBytes(args[1])
+		return indexVal(a, b)
+	}
+	lastIdxStr := func(fr *frame, args []value) value {
+		a, _ := strBytes(args[0])
+		b, _ := strBytes(args[1])
+		return lastIndexVal(a, b)
+	}
+	// std uses Rabin-Karp hashing (32-bit multiplications) for these: replaced by a window comparison
+	externals["bytes.Index"] = idxBytes
+	externals["strings.Index"] = idxStr
+	externals["internal/stringslite.Index"] = idxStr
+	externals["internal/bytealg.IndexRabinKarp[[]byte]"] = idxBytes
+	externals["internal/bytealg.IndexRabinKarp[string]"] = idxStr
+	externals["strings.LastIndex"] = lastIdxStr
+	externals["bytes.LastIndex"] = func(fr *frame, args []value) value { return lastIndexVal(args[0].([]value), args[1].([]value)) }
+	externals["internal/bytealg.LastIndexRabinKarp[[]byte]"] = externals["bytes.LastIndex"]
+	externals["internal/bytealg.LastIndexRabinKarp[string]"] = lastIdxStr
 	externals["internal/bytealg.LastIndexByte"] = func(fr *frame, args []value) value {
 		return lastIndexByteVal(args[0].([]value), args[1])
 	}
@@ -286,6 +307,18 @@ func indexVal(a, b []value) value {
 	}
 	r := c.Const(^uint64(0), 64)
 	for i := len(a) - len(b); i >= 0; i-- {
+		r = c.Ite(bytesEqTerm(c, a[i:i+len(b)], b), c.Const(uint64(i), 64), r)
+	}
+	return mkVal(tInt, r)
+}
+
+func lastIndexVal(a, b []value) value {
+	c := deepCtx(array(a), array(b))
+	if c == nil {
+		c = smt.NewCtx()
+	}
+	r := c.Const(^uint64(0), 64)
+	for i := 0; i+len(b) <= len(a); i++ {
 		r = c.Ite(bytesEqTerm(c, a[i:i+len(b)], b), c.Const(uint64(i), 64), r)
 	}
 	return mkVal(tInt, r)
